@@ -49,6 +49,16 @@ def gen(rng, tier):
             doc = [{"a": x} for x in ["k", "K", "\u212a", "s", "S", "\u017f", "i", "I", "\u0130", "\u0131", "-", ".", "a", "z", "0", "/"]]
             q = {"first": {"fake": False, "segs": [["list", ["filter", ["op", "=~", ["self", ["sel", ["name", "a"]]], ["re", pat, fl]]]]]}, "rest": []}
             yield {"query": q, "doc": doc, "ctx": Q.CTX, "seed": 11, "std": False, "implicit_root": False}
+    # =~ is a match of the WHOLE string: alternations whose earlier alternative is a proper prefix of a later one
+    for pat, fl in [("a|ab", ""), ("a|ab|abc", ""), ("(a|ab)(c|bcd)?", ""), ("js|json", "i"), ("(a|ab)*", ""), ("ab|a", ""), ("a*|a*b", "")]:
+        doc = [{"a": x} for x in ["a", "ab", "abc", "abcd", "abab", "json", "JSON", "js", "b", ""]]
+        for lhs in (["self", ["sel", ["name", "a"]]],):
+            for neg in (False, True):
+                e = ["op", "=~", lhs, ["re", pat, fl]]
+                q = {"first": {"fake": False, "segs": [["list", ["filter", ["not", e] if neg else e]]]}, "rest": []}
+                yield {"query": q, "doc": doc, "ctx": Q.CTX, "seed": 12, "std": False, "implicit_root": False}
+        q = {"first": {"fake": False, "segs": ["desc", ["list", ["filter", ["op", "=~", ["self"], ["re", pat, fl]]]]]}, "rest": []}
+        yield {"query": q, "doc": {"k": ["ab", "a", "abc", {"m": "ab"}]}, "ctx": Q.CTX, "seed": 13, "std": False, "implicit_root": False}
     # alias pairs: the same AST rendered with alias spellings and with standard spellings must agree;
     # the AST is the same, so the specification result is the same: rendering twice covers it
     for _ in range(n // 3):
